@@ -26,8 +26,35 @@ def sh(cmd, cwd=None, env=None, timeout=3600):
     return p.returncode, p.stdout.decode("latin1")
 
 
+def run_all(args):
+    """tools_seeded.py all [--runs N]: re-evaluate every stored change against its property's check."""
+    import glob
+    rows = []
+    bad = 0
+    for d in sorted(glob.glob(os.path.join(VERIF, "seeded", "*", "meta.json"))):
+        meta = json.load(open(d))
+        base = os.path.dirname(d)
+        cmd = [PY, os.path.abspath(__file__), "eval", os.path.join(base, "patch.diff"), os.path.join(base, "demo.py"),
+               meta["breaks_property"]] + args
+        rc, o = sh(cmd, timeout=7200)
+        try:
+            res = json.loads(o)
+            ck = res["checks"][meta["breaks_property"]]
+            ok = res["demo_clean_exit"] == 0 and res["tests_pass_with_patch"] and res["demo_patched_exit"] != 0 and ck["caught"]
+            print("%-8s %s  %s  %s" % (meta["id"], meta["breaks_property"], "CAUGHT" if ok else "NOT-CAUGHT(exit %s)" % ck["exit"],
+                                      (ck["signatures"] or [""])[0][:100]), flush=True)
+        except Exception:
+            ok = False
+            print("%-8s error: %s" % (meta["id"], o[-300:]), flush=True)
+        bad += 0 if ok else 1
+    print("seeded changes: %d not caught" % bad)
+    return 1 if bad else 0
+
+
 def main():
     args = sys.argv[1:]
+    if args and args[0] == "all":
+        return run_all(args[1:])
     if len(args) < 4 or args[0] != "eval":
         print(__doc__)
         return 2
